@@ -185,7 +185,7 @@ func (c18Driver) Generate(t *tape.Tape, tier string) core.Case {
 	var loaded []string
 	n := ht.Range(3, 14)
 	for i := 0; i < n; i++ {
-		switch ht.Weighted(6, 1, 3, 4, 2) {
+		switch ht.Weighted(6, 1, 3, 4, 2, 2) {
 		case 0:
 			if len(pendingGood) > 0 {
 				c.Ops = append(c.Ops, world.Op{Op: "parse", Name: pendingGood[0]})
@@ -204,11 +204,18 @@ func (c18Driver) Generate(t *tape.Tape, tier string) core.Case {
 			c.Ops = append(c.Ops, world.Op{Op: "process"})
 		case 4:
 			c.Ops = append(c.Ops, world.Op{Op: "query", Arg: "/x:nosuch"})
+		case 5:
+			// GetModule processes the set itself
+			c.Ops = append(c.Ops, world.Op{Op: "getmodule", Name: moduleOfFile(names[ht.Intn(len(names))])})
 		}
 	}
-	c.Ops = append(c.Ops, world.Op{Op: "process"})
-	if ht.Chance(1, 2) {
+	switch ht.Weighted(2, 2, 1) {
+	case 0:
 		c.Ops = append(c.Ops, world.Op{Op: "process"})
+	case 1:
+		c.Ops = append(c.Ops, world.Op{Op: "process"}, world.Op{Op: "process"})
+	case 2:
+		c.Ops = append(c.Ops, world.Op{Op: "getmodule", Name: moduleOfFile(names[ht.Intn(len(names))])})
 	}
 	c.Sched = maporder.RandomStable(t.Sub("sched"))
 	if t.Chance(1, 3) {
@@ -263,9 +270,13 @@ func (c18Driver) Run(cc core.Case) core.Outcome {
 		if r.Panic != "" || r.Overrun != "" {
 			// A crash is C01's business unless the batch run of the accepted
 			// texts does not crash: then the history is what broke it.
-			batch := runBatch(texts, accepted, c.Sched, c.Options)
+			final := world.Op{Op: "process"}
+			if r.Op.Op == "getmodule" {
+				final = r.Op
+			}
+			batch := runBatchOp(texts, accepted, c.Sched, c.Options, final)
 			o.Ticks += batch.Res.Ticks
-			if r.Op.Op == "process" && !batch.Crashed {
+			if (r.Op.Op == "process" || r.Op.Op == "getmodule") && !batch.Crashed {
 				what := r.Panic
 				if r.Overrun != "" {
 					what = "simulated " + r.Overrun + " bound exceeded"
@@ -301,7 +312,7 @@ func (c18Driver) Run(cc core.Case) core.Outcome {
 			}
 		case "query":
 			queries++
-		case "process":
+		case "process", "getmodule":
 			if failedLoads > 0 || processes > 0 || queries > 0 {
 				o.Nontrivial = true
 			}
@@ -313,8 +324,11 @@ func (c18Driver) Run(cc core.Case) core.Outcome {
 			}
 			processes++
 			hist := outcomeOf(&world.Result{Ops: []world.OpResult{r}})
-			batch := runBatch(texts, accepted, c.Sched, c.Options)
+			batch := runBatchOp(texts, accepted, c.Sched, c.Options, r.Op)
 			o.Ticks += batch.Res.Ticks
+			if r.Op.Op == "getmodule" {
+				o.Count("probe.getmodule_compared", 1)
+			}
 			// the batch outcome also lists its (successful) loads: compare the process part only
 			bproc := outcomeOf(&world.Result{Ops: batch.Res.Ops[len(batch.Res.Ops)-1:]})
 			fmt.Fprintf(&state, "%d:%x ", i, tape.Hash64([]byte(hist.Text)))
@@ -328,7 +342,7 @@ func (c18Driver) Run(cc core.Case) core.Outcome {
 				case !hist.Clean && !bproc.Clean:
 					class = "history-changes-errors"
 				}
-				o.Fail(class, "Process at op %d of the history %s\ndiffers from a fresh Modules loading the accepted texts %v and processing once:\n%s", i, opsString(c.Ops[:i+1]), accepted, strings.Replace(strings.Replace(firstDiff(bproc.Text, hist.Text), "canonical:", "batch    :", 1), "this run :", "history  :", 1))
+				o.Fail(class, "%s at op %d of the history %s\ndiffers from a fresh Modules loading the accepted texts %v and processing once:\n%s", opName(r.Op), i, opsString(c.Ops[:i+1]), accepted, strings.Replace(strings.Replace(firstDiff(bproc.Text, hist.Text), "canonical:", "batch    :", 1), "this run :", "history  :", 1))
 				return o
 			}
 		}
@@ -337,12 +351,26 @@ func (c18Driver) Run(cc core.Case) core.Outcome {
 	return o
 }
 
+func opName(op world.Op) string {
+	if op.Op == "getmodule" {
+		return "GetModule(" + op.Name + ")"
+	}
+	return "Process"
+}
+
+// moduleOfFile maps a source name ("m@2020-01-01.yang") to the module name.
+func moduleOfFile(n string) string {
+	return strings.TrimSuffix(strings.SplitN(n, "@", 2)[0], ".yang")
+}
+
 func opsString(ops []world.Op) string {
 	var parts []string
 	for _, op := range ops {
 		switch op.Op {
 		case "parse":
 			parts = append(parts, "parse("+op.Name+")")
+		case "getmodule":
+			parts = append(parts, "getmodule("+op.Name+")")
 		default:
 			parts = append(parts, op.Op)
 		}
